@@ -5,7 +5,7 @@ import (
 )
 
 // atom appends one element of the escape alphabet to (value, spelling).
-const nAtoms = 16
+const nAtoms = 18
 
 func atom(name string, kind int, val, sp []byte) ([]byte, []byte) {
 	switch kind {
@@ -42,6 +42,10 @@ func atom(name string, kind int, val, sp []byte) ([]byte, []byte) {
 		return append(val, '\r'), append(sp, '\\', 'r')
 	case 15:
 		return append(val, '/'), append(sp, '\\', '/')
+	case 16: // surrogate pair spelled as two escapes (U+1F600)
+		return append(val, 0xF0, 0x9F, 0x98, 0x80), append(sp, '\\', 'u', 'd', '8', '3', 'd', '\\', 'u', 'D', 'E', '0', '0')
+	case 17: // BMP non-ASCII character spelled as an escape with upper-case hex (U+00E9)
+		return append(val, 0xC3, 0xA9), append(sp, '\\', 'u', '0', '0', 'E', '9')
 	}
 	panic("atom")
 }
